@@ -29,6 +29,12 @@ Inv_C16 == ViolOf(m, "C16") = {}
 Inv_C18 == ViolOf(m, "C18") = {}
 Inv_Stream == ViolOf(m, "C00") = {}
 
+(* C02, liveness half: under weak fairness every behaviour of the model comes to rest - the driver is idle and no further  *)
+(* step is possible (the budgets are finite, so a behaviour that never rests would be a livelock of the runner itself,     *)
+(* e.g. a deferred command that is re-deferred for ever)                                                                  *)
+FairSpec == Spec /\ WF_vars(Next)
+Terminates == <>[](Len(w.stack) = 0 /\ ~ENABLED Next)
+
 (* structural invariants of the model itself *)
 RcOK == \A h \in DOMAIN w.rc : w.rc[h] >= 0
 StackOK == \A i \in DOMAIN w.stack : w.stack[i].f \in {"q", "r", "d"}
